@@ -170,7 +170,11 @@ def main():
             n = len(F.bodies_of_crate(c))
             if n < CRATE_FLOORS.get(c, 0):
                 raise RuntimeError("facts incomplete: crate %s has %d bodies, floor %d" % (c, n, CRATE_FLOORS[c]))
-        mod.run(F, S, R, tier)
+        try:
+            mod.run(F, S, R, tier)
+        except AnchorLost as e:
+            # a top-level anchor of the rule file no longer resolves: fail closed as a finding, not as a pass
+            R.bad("anchor-lost", "anchor no longer resolves: %s" % e)
     except Exception as e:
         sys.stderr.write(traceback.format_exc())
         print("ERROR machinery failure for %s: %s" % (prop, e))
